@@ -16,7 +16,7 @@ META = {
     ),
     "anchors": ["abelian_core._fuse_blocks_via_insert", "abelian_core._fuse_blocks_via_concat", "abelian_core.AbelianArray.to_dense", "abelian_core.AbelianArray.fill_missing_blocks", "abelian_core._tensordot_via_fused", "linalg._get_qr_fn", "utils.get_random_fill_fn"],
     "floors": {
-        "quick": {"evaluations": 20000, "distinct_nontrivial": 3000, "tables": {"dtype/float32": 3000, "dtype/complex64": 3000, "dtype/complex128": 3000, "zero-creation/fuse-insert": 300, "zero-creation/fuse-concat": 300, "zero-creation/to_dense": 300, "zero-creation/fill_missing_blocks": 300, "zero-creation/fused-contraction": 200, "twin-compared": 8000}},
+        "quick": {"evaluations": 20000, "distinct_nontrivial": 3000, "tables": {"dtype/float32": 3000, "dtype/complex64": 3000, "dtype/complex128": 3000, "zero-creation/fuse-insert": 300, "zero-creation/fuse-concat": 300, "zero-creation/to_dense": 300, "zero-creation/fill_missing_blocks": 300, "zero-creation/fused-contraction": 200, "twin-compared": 8000, "mixed-contraction/terms>=32": 400}},
         "thorough": {"evaluations": 500000, "distinct_nontrivial": 60000},
     },
     "wall": {"quick": 100, "thorough": 1700},
@@ -234,8 +234,88 @@ def dedicated(ctx, rng):
             ctx.nontrivial(("dedicated", name, dt, struct_sig(x)))
 
 
+def mixed_contraction(ctx, rng):
+    """Contractions of two homogeneous operands of DIFFERENT element types (real x complex,
+    single x double), over few or very many aligned sector pairs per output block, in every
+    mode: the imaginary part must survive and the value must agree with the double twins."""
+    sr = ctx.sr
+    da, db = rng.choice([("float32", "complex64"), ("complex64", "float32"), ("float64", "complex128"), ("complex128", "float64"), ("float32", "complex128"), ("complex64", "float64"), ("float32", "float64"), ("float64", "complex64"), ("complex64", "complex64"), ("float32", "float32")])
+    ferm = rng.random() < 0.4
+    shape = rng.choice(["many-terms", "many-terms", "generic"])
+    if shape == "many-terms":
+        sym = rng.choice(["Z2", "Z2", "Z2Z2", "Z4", "U1"])
+        ncon = {"Z2": rng.randint(6, 7), "Z2Z2": 4, "Z4": 4, "U1": 5}[sym]
+        fa, fb = rng.randint(0, 1), rng.randint(0, 1)
+        kw = dict(na=ncon + fa, nb=ncon + fb, ncon=ncon, maxd=1, maxc=4 if sym in ("Z2Z2", "Z4") else (3 if sym == "U1" else 2), minc=4 if sym in ("Z2Z2", "Z4") else (3 if sym == "U1" else 2), p_single=0.0, sparsity=0.0)
+    else:
+        sym = rng.choice(gen.SYMS5)
+        kw = dict(maxnd=4, maxd=2, sparsity=rng.choice([0.0, 0.4]))
+    _, _, kind = gen.pick_class(sr, rng, sym, ferm)
+    a, b, axa, axb = gen.contractible_pair(sr, rng, sym, ferm, values=gen.Values(rng, "gauss", da), kind=kind, nphase=0, **kw)
+    b = deep_twin(b, dtype=db)
+    if np.dtype(db).kind == "c":
+        for s_ in b.blocks:
+            b.blocks[s_] = b.blocks[s_] * np.asarray(1 + 0.5j, dtype=db)
+    if not a.blocks or not b.blocks:
+        return
+    # number of aligned sector pairs feeding one output block (harness count)
+    keyed = {}
+    for sa in a.blocks:
+        ka = tuple(sa[i] for i in axa)
+        fa_ = tuple(c for i, c in enumerate(sa) if i not in axa)
+        for sb in b.blocks:
+            if tuple(sb[i] for i in axb) == ka:
+                fb_ = tuple(c for i, c in enumerate(sb) if i not in axb)
+                keyed[fa_ + fb_] = keyed.get(fa_ + fb_, 0) + 1
+    nterms = max(keyed.values(), default=0)
+    ctx.count("mixed-contraction", "terms>=32" if nterms >= 32 else ("terms>=8" if nterms >= 8 else "terms<8"))
+    want = str(np.result_type(np.dtype(da), np.dtype(db)))
+    lo = da if EPS[da] >= EPS[db] else db
+    mode = rng.choice(["fused", "blockwise", "auto", "default", "matmul"])
+    if mode == "matmul":
+        if not (a.ndim == 2 and b.ndim == 2 and list(axa) == [1] and list(axb) == [0]):
+            mode = "blockwise"
+    if mode == "matmul":
+        f = lambda x, y: x @ y
+    else:
+        kwm = {} if mode == "default" else {"mode": mode}
+        f = lambda x, y: sr.tensordot(x, y, axes=(list(axa), list(axb)), preserve_array=True, **kwm)
+    wit = {"op": f"tensordot[{mode}]", "dtypes": [da, db], "axes": [list(axa), list(axb)], "max_terms_per_block": nterms, "a": describe(a), "b": describe(b)}
+    o = ctx.call(f, a, b)
+    ctx.evaluated()
+    ctx.count("dtype", f"{da}x{db}")
+    ctx.count("op", f"mixed-contraction:{mode}")
+    if not o.ok:
+        if isinstance(o.exc, Warning):
+            ctx.violation("complex-warning:tensordot", f"tensordot[{mode}] of {da} with {db} emitted {o.exc!r} (imaginary part discarded)", wit)
+        else:
+            ctx.violation(f"tensordot-raises-{o.excname}", repr(o.exc), wit)
+        return
+    res = o.value
+    got = block_dtypes(res)
+    if da == db and got and got != {da}:
+        ctx.violation("dtype-changed:tensordot", f"tensordot[{mode}] of two {da} arrays has blocks of dtype {sorted(got)}", wit)
+        return
+    if np.dtype(want).kind == "c" and any(np.dtype(g).kind != "c" for g in got):
+        ctx.violation("dtype-changed:tensordot", f"tensordot[{mode}] of {da} with {db}: blocks of dtype {sorted(got)} cannot hold the imaginary part (expected {want})", wit)
+        return
+    if is_array(res):
+        ot = ctx.call(f, deep_twin(a, dtype=HI[da]), deep_twin(b, dtype=HI[db]))
+        if ot.ok and is_array(ot.value):
+            va, vb = embed(res), embed(ot.value, res.indices)
+            ctx.count("twin-compared", lo)
+            scale = max(1.0, float(np.abs(vb).max(initial=0)))
+            if not np.allclose(va, vb, atol=EPS[lo] * scale * 50 * max(1, nterms), rtol=0):
+                ctx.violation("precision-lost:tensordot", f"tensordot[{mode}] of {da} with {db} differs from the same contraction of the double-precision twins by {float(np.abs(va - vb).max())} (scale {scale})", wit)
+                return
+        if da != db and nterms >= 8:
+            ctx.nontrivial(("mixed", mode, da, db, struct_sig(a), struct_sig(b)))
+
+
 def run(ctx):
     for _, rng in ctx.cases("programs", ctx.budget(28000, 550000)):
         ctx.run_case(run_program, ctx, rng)
     for _, rng in ctx.cases("dedicated", ctx.budget(21000, 400000)):
         ctx.run_case(dedicated, ctx, rng)
+    for _, rng in ctx.cases("mixed-contraction", ctx.budget(6000, 120000)):
+        ctx.run_case(mixed_contraction, ctx, rng)
